@@ -203,11 +203,13 @@ public:
 
 	bool emptyQueue() const
 	{
+		EVENTPP_VERIF_POINT("queueList.empty");
 		return queueList.empty() && (queueEmptyCounter.load(std::memory_order_acquire) == 0);
 	}
 	
 	void clearEvents()
 	{
+		EVENTPP_VERIF_POINT("queueList.empty");
 		if(! queueList.empty()) {
 			BufferedItemList tempList;
 
@@ -229,6 +231,7 @@ public:
 
 	bool process()
 	{
+		EVENTPP_VERIF_POINT("queueList.empty");
 		if(! queueList.empty()) {
 			BufferedItemList tempList;
 
@@ -262,6 +265,7 @@ public:
 
 	bool processOne()
 	{
+		EVENTPP_VERIF_POINT("queueList.empty");
 		if(! queueList.empty()) {
 			BufferedItemList tempList;
 
@@ -297,6 +301,7 @@ public:
 	template <typename Predictor>
 	bool processIf(Predictor && predictor)
 	{
+		EVENTPP_VERIF_POINT("queueList.empty");
 		if(! queueList.empty()) {
 			BufferedItemList tempList;
 			BufferedItemList idleList;
@@ -352,6 +357,7 @@ public:
 	template <typename Predictor>
 	bool processUntil(Predictor && predictor)
 	{
+		EVENTPP_VERIF_POINT("queueList.empty");
 		if(! queueList.empty()) {
 			BufferedItemList tempList;
 			BufferedItemList idleList;
@@ -435,6 +441,7 @@ public:
 
 	bool peekEvent(QueuedEvent * queuedEvent)
 	{
+		EVENTPP_VERIF_POINT("queueList.empty");
 		if(! queueList.empty()) {
 			std::lock_guard<Mutex> queueListLock(queueListMutex);
 			
@@ -449,6 +456,7 @@ public:
 
 	bool takeEvent(QueuedEvent * queuedEvent)
 	{
+		EVENTPP_VERIF_POINT("queueList.empty");
 		if(! queueList.empty()) {
 			BufferedItemList tempList;
 
@@ -514,6 +522,7 @@ protected:
 	void doEnqueue(QueuedEvent && item)
 	{
 		BufferedItemList tempList;
+		EVENTPP_VERIF_POINT("freeList.empty");
 		if(! freeList.empty()) {
 			{
 				std::lock_guard<Mutex> queueListLock(freeListMutex);
